@@ -489,6 +489,27 @@ static void canary_body(long lid, std::uint64_t seed, int cls)
     c.suspensions_left = 1 + int(c.r.below(6));
     deep(c, 0);
     check_identity(c, "the whole body");
+    // --- children that inherit this task's stack-size class (thread_stacksize::current), normal and high priority:
+    // such a child must run on a stack of the parent's configured size
+    if (c.r.below(3) == 0)
+    {
+        std::size_t const want = std::size_t(R.size);
+        for (int k = 0; k < 2; ++k)
+        {
+            auto s = ex::with_stacksize(ex::thread_pool_scheduler{}, pika::execution::thread_stacksize::current);
+            if (k == 1) s = ex::with_priority(s, pika::execution::thread_priority::high);
+            g_helpers.fetch_add(1);
+            ex::start_detached(ex::schedule(s) | ex::then([want, lid, k] {
+                check_clean_start("inheriting child");
+                std::size_t const got = std::size_t(ptd::get_self_stacksize());
+                if (got != want)
+                    monitor("child of task " + std::to_string(lid) + " created with thread_stacksize::current (" +
+                        (k ? "high" : "normal") + " priority) runs on a stack of " + std::to_string(got) + " bytes, its parent has " +
+                        std::to_string(want));
+                g_helpers_done.fetch_add(1);
+            }));
+        }
+    }
     // --- donor role
     std::uint32_t d = c.r.below(8);
     if (d < 5) g_dirty.fetch_add(1, std::memory_order_relaxed);
